@@ -148,8 +148,9 @@ TxDiffs(txs) == [i \in 1..Len(txs) |-> TxDiff[txs[i]]]
 SlotDiff(s) == FoldDiffs(EmptyDiff, TxDiffs(s.txs))
 SlotDecl(s) == UNION {TxDecl[s.txs[i]] : i \in 1..Len(s.txs)}
 
-(* canonical state at block n (n <= head) *)
-CanonState(n) == FoldDiffs(Genesis, [i \in 1..n |-> CanonDiff[i][canon[i]]])
+(* canonical state at block n (n <= head) of the canonical chain cn *)
+CanonStateC(cn, n) == FoldDiffs(Genesis, [i \in 1..n |-> CanonDiff[i][cn[i]]])
+CanonState(n) == CanonStateC(canon, n)
 
 (* what a read of the canonical state returns: reads of an undeployed contract fail *)
 ReadState(s, q) == IF q \in C2All /\ s[DeployKey] = 0 THEN Err ELSE s[q]
@@ -163,24 +164,27 @@ Lookup(m, s, q) ==
 
 SlotIndex(v, n) == n - v.asked + 1          \* position of block n in a non-empty view
 
-(* ChainReader.PreConfirmedStateAt(n).<read q> as the code computes it *)
-CodeStateAt(v, n, q) ==
-  IF v.asked - 1 > CHead THEN NoBase
+(* ChainReader.PreConfirmedStateAt(n).<read q> as the code computes it (cn = canonical chain at
+   the time of the read): merge the blocks' diffs oldest first into an empty diff, look up *)
+CodeStateAtC(cn, v, n, q) ==
+  IF v.asked - 1 > Len(cn) THEN NoBase
   ELSE LET ds == [i \in 1..SlotIndex(v, n) |-> SlotDiff(v.slots[i])] IN
-       Lookup(FoldDiffs(EmptyDiff, ds), CanonState(v.asked - 1), q)
+       Lookup(FoldDiffs(EmptyDiff, ds), CanonStateC(cn, v.asked - 1), q)
+CodeStateAt(v, n, q) == CodeStateAtC(canon, v, n, q)
 
 (* ChainReader.PreConfirmedStateBeforeIndexAt(n, idx) *)
-CodeStateBefore(v, n, idx, q) ==
-  IF v.asked - 1 > CHead THEN NoBase
+CodeStateBeforeC(cn, v, n, idx, q) ==
+  IF v.asked - 1 > Len(cn) THEN NoBase
   ELSE LET j == SlotIndex(v, n)
            ds == [i \in 1..(j - 1) |-> SlotDiff(v.slots[i])]
            m1 == FoldDiffs(EmptyDiff, ds)
            m2 == FoldDiffs(m1, TxDiffs(SubSeq(v.slots[j].txs, 1, idx)))
-       IN Lookup(m2, CanonState(v.asked - 1), q)
+       IN Lookup(m2, CanonStateC(cn, v.asked - 1), q)
+CodeStateBefore(v, n, idx, q) == CodeStateBeforeC(canon, v, n, idx, q)
 
 (* State.Class(k): the NewClasses of the view's blocks up to n, else the base *)
-CodeClassAt(v, n, k) ==
-  IF v.asked - 1 > CHead THEN NoBase
+CodeClassAtC(cn, v, n, k) ==
+  IF v.asked - 1 > Len(cn) THEN NoBase
   ELSE IF \E i \in 1..SlotIndex(v, n) : k \in v.slots[i].cls THEN 1
   ELSE IF k \in CanonClasses THEN 1 ELSE 0
 
@@ -212,14 +216,15 @@ SpecStateBefore(v, n, idx, q) ==
        IN ReadState(ApplyTxs(s1, SubSeq(v.slots[j].txs, 1, idx)), q)
 
 (* everything a reader can ask of a view, as the replayer compares it *)
-ViewReads(v) ==
-  [st |-> [j \in 1..Len(v.slots) |-> [q \in SK |-> CodeStateAt(v, v.slots[j].num, q)]],
-   cl |-> [j \in 1..Len(v.slots) |-> [k \in ClassIds |-> CodeClassAt(v, v.slots[j].num, k)]],
+ViewReadsC(cn, v) ==
+  [st |-> [j \in 1..Len(v.slots) |-> [q \in SK |-> CodeStateAtC(cn, v, v.slots[j].num, q)]],
+   cl |-> [j \in 1..Len(v.slots) |-> [k \in ClassIds |-> CodeClassAtC(cn, v, v.slots[j].num, k)]],
    bi |-> [j \in 1..Len(v.slots) |->
              [x \in 1..(Len(v.slots[j].txs) + 1) |->
-                [q \in SK |-> CodeStateBefore(v, v.slots[j].num, x - 1, q)]]],
+                [q \in SK |-> CodeStateBeforeC(cn, v, v.slots[j].num, x - 1, q)]]],
    tx |-> [t \in TxIds |-> CodeTxLookup(v, t)]]
-Reads == [i \in 1..Len(views) |-> ViewReads(views[i])]
+ReadsC(cn, vs) == [i \in 1..Len(vs) |-> ViewReadsC(cn, vs[i])]
+Reads == ReadsC(canon, views)
 
 --------------------------------------------------------------------------
 InitWith(p) ==
@@ -351,7 +356,8 @@ LatestResp(u, L, fail) ==
           /\ UNCHANGED chain
      ELSE LET unum == IF u.kind \in {"nochange", "delta"} THEN pk.from ELSE L IN
           IF unum > pk.from
-          THEN /\ pc' = "bynum"
+          THEN /\ unum - pOld + 1 <= MaxSlots      \* (bound: the backfilled chain must fit)
+               /\ pc' = "bynum"
                /\ pk' = [pk EXCEPT !.upd = u, !.unum = unum, !.n = pk.from]
                /\ res' = [st |-> "ok", tag |-> "backfill", aff |-> NoSlot]
                /\ UNCHANGED chain
@@ -396,22 +402,30 @@ NumChoices == IF Rogue THEN Nums
 BaseChoices == IF Rogue \/ Len(chain) = 0 THEN 0..MaxTx
                ELSE {Len(chain[Len(chain)].txs), (Len(chain[Len(chain)].txs) + 1) % (MaxTx + 1)}
 
-(* one disjunct per case of the code (used with -coverage to show that every case is reached) *)
+(* one top-level disjunct per case of the code (used with -coverage: every case must be reached) *)
 StorageNextNamed ==
-  \/ \E b \in FullBlocks, num \in NumChoices, o \in OldestChoices, cls \in ClassSets :
-        \/ Bootstrap(b, num, o, cls) \/ Extend(b, num, o, cls) \/ ReplaceSlot(b, num, o, cls)
-        \/ PreserveSlot(b, num, o, cls) \/ RejectedFull(b, num, o, cls)
-  \/ \E d \in Deltas, num \in NumChoices, bc \in BaseChoices, o \in OldestChoices, cls \in ClassSets :
-        Delta(d, num, bc, o, cls) \/ RejectedDelta(d, num, bc, o, cls)
-  \/ \E num \in NumChoices, o \in OldestChoices, cls \in ClassSets :
-        NoChange(num, o, cls) \/ RejectedNoChange(num, o, cls)
+  \/ \E b \in FullBlocks, num \in NumChoices, o \in OldestChoices, cls \in ClassSets : Bootstrap(b, num, o, cls)
+  \/ \E b \in FullBlocks, num \in NumChoices, o \in OldestChoices, cls \in ClassSets : Extend(b, num, o, cls)
+  \/ \E b \in FullBlocks, num \in NumChoices, o \in OldestChoices, cls \in ClassSets : ReplaceSlot(b, num, o, cls)
+  \/ \E b \in FullBlocks, num \in NumChoices, o \in OldestChoices, cls \in ClassSets : PreserveSlot(b, num, o, cls)
+  \/ \E b \in FullBlocks, num \in NumChoices, o \in OldestChoices, cls \in ClassSets : RejectedFull(b, num, o, cls)
+  \/ \E d \in Deltas, num \in NumChoices, bc \in BaseChoices, o \in OldestChoices, cls \in ClassSets : Delta(d, num, bc, o, cls)
+  \/ \E d \in Deltas, num \in NumChoices, bc \in BaseChoices, o \in OldestChoices, cls \in ClassSets : RejectedDelta(d, num, bc, o, cls)
+  \/ \E num \in NumChoices, o \in OldestChoices, cls \in ClassSets : NoChange(num, o, cls)
+  \/ \E num \in NumChoices, o \in OldestChoices, cls \in ClassSets : RejectedNoChange(num, o, cls)
   \/ \E o \in 1..(MaxHead + 2) : AdvanceTo(o)
 
-(* the same transitions with one evaluation of the case analysis per call *)
+(* The same transitions up to stuttering, for fast exhaustive search: a call that the case
+   analysis rejects or turns into a no-op leaves every variable of `view` unchanged
+   (RejectedPublishesNothing), so only the calls that can publish something are enumerated. *)
+OkTags == {"bootstrap", "extend", "replace-tip", "replace-truncate", "delta", "nochange-classes"}
+LiveNums(u) ==
+  IF Len(chain) = 0 THEN (IF u.kind = "full" THEN {pOld} ELSE {})
+  ELSE IF u.kind = "full" THEN Oldest(chain)..(Tip(chain) + 1) ELSE {Tip(chain)}
 StorageNext ==
-  \/ \E u \in Updates, num \in NumChoices, o \in OldestChoices, cls \in ClassSets :
-        \E bc \in (IF u.kind = "delta" THEN BaseChoices ELSE {0}) : ApplyCall(u, num, bc, o, cls, AllTags)
-  \/ \E o \in 1..(MaxHead + 2) : AdvanceTo(o)
+  \/ \E u \in Updates, cls \in ClassSets : \E num \in LiveNums(u) :
+        ApplyCall(u, num, IF Len(chain) = 0 THEN 0 ELSE Len(chain[Len(chain)].txs), pOld, cls, OkTags)
+  \/ AdvanceTo(CHead + 1)
 
 EnvNext ==
   \/ \E n \in 1..(MaxHead + 1) : Snapshot(n)
@@ -447,10 +461,10 @@ ChainContiguous == Contiguous(chain)
 
 (* every view is gap-free and, when non-empty, starts exactly at the block it was asked for
    (one above the head the reader aligned to) *)
-ViewsAligned ==
-  \A i \in 1..Len(views) :
-    /\ Contiguous(views[i].slots)
-    /\ Len(views[i].slots) > 0 => views[i].slots[1].num = views[i].asked
+ViewAligned(v) ==
+  /\ Contiguous(v.slots)
+  /\ Len(v.slots) > 0 => v.slots[1].num = v.asked
+ViewsAligned == \A i \in 1..Len(views) : ViewAligned(views[i])
 
 (* a view never changes after it was handed out *)
 ViewsImmutable == [][\A i \in 1..Len(views) : views'[i] = views[i]]_vars
@@ -465,21 +479,30 @@ SnapshotIsSuffix ==
 
 (* what the code computes (merge, then look up with fall-through) is the overlay of the view's
    blocks, in order, on the canonical state below the view *)
-OverlayCorrect ==
-  \A i \in 1..Len(views) : LET v == views[i] IN
-    \A j \in 1..Len(v.slots) : \A q \in SK :
-      /\ CodeStateAt(v, v.slots[j].num, q) = SpecStateAt(v, v.slots[j].num, q)
-      /\ \A x \in 0..Len(v.slots[j].txs) :
-           CodeStateBefore(v, v.slots[j].num, x, q) = SpecStateBefore(v, v.slots[j].num, x, q)
+ViewOverlayCorrect(v) ==
+  \A j \in 1..Len(v.slots) : \A q \in SK :
+    /\ CodeStateAt(v, v.slots[j].num, q) = SpecStateAt(v, v.slots[j].num, q)
+    /\ \A x \in 0..Len(v.slots[j].txs) :
+         CodeStateBefore(v, v.slots[j].num, x, q) = SpecStateBefore(v, v.slots[j].num, x, q)
+OverlayCorrect == \A i \in 1..Len(views) : ViewOverlayCorrect(views[i])
 
 (* a lookup finds a transaction iff one of the view's blocks holds it, in a block that holds it *)
-LookupExact ==
-  \A i \in 1..Len(views) : LET v == views[i] IN
-    \A t \in TxIds :
-      LET holders == {j \in 1..Len(v.slots) : \E x \in 1..Len(v.slots[j].txs) : v.slots[j].txs[x] = t}
-          r == CodeTxLookup(v, t)
-      IN IF holders = {} THEN r = Miss
-         ELSE \E j \in holders : v.slots[j].num = r
+ViewLookupExact(v) ==
+  \A t \in TxIds :
+    LET holders == {j \in 1..Len(v.slots) : \E x \in 1..Len(v.slots[j].txs) : v.slots[j].txs[x] = t}
+        r == CodeTxLookup(v, t)
+    IN IF holders = {} THEN r = Miss
+       ELSE \E j \in holders : v.slots[j].num = r
+LookupExact == \A i \in 1..Len(views) : ViewLookupExact(views[i])
+
+(* The same three properties for EVERY view a reader could obtain in the current state.  A view is
+   a value that later steps cannot touch and the canonical chain moves independently of the
+   pre-confirmed chain, so checking this in every reachable (chain, canon) state covers every
+   (view, later canonical chain) pair without carrying the views in the state. *)
+PotentialView(n) == [asked |-> n, slots |-> SnapshotOf(chain, n)]
+EveryPotentialViewOK ==
+  \A n \in 1..(MaxHead + MaxSlots + 1) :
+    LET v == PotentialView(n) IN ViewAligned(v) /\ ViewOverlayCorrect(v) /\ ViewLookupExact(v)
 
 (* after the poller realigned (every tick starts with AdvanceTo(head+1)) the chain is empty or
    starts at the slot the tick expects; hence no poller apply is ever rejected as misaligned *)
